@@ -856,4 +856,8 @@ def witnesses():
     md = Mod("mdd", None, imports=[("maa", None), ("mcc", None)], lrefs=["mcc"])
     mz = apply_edit(Mod("mzz", None, imports=[("maa", None)]), "typedef")
     h = History(); [h.add(x) for x in (ma, mb, mc, md)]; h.parse(md); h.add(mz); h.parse(mz); w["F137"] = ("F137", h, 1)
+    # Props/C19.lean yl_roundtrip_order_fails: `top` (dateless import of aaa) is listed before aaa@2019-01-01 in the yang-library
+    # data while a newer aaa is among the sources: the rebuilt context holds aaa@2020-01-01 as an additional import-only module
+    h = History(); h.add(W_A19()); t = h.add(Mod("top", "2018-01-01", imports=[("aaa", None)])); h.parse(t); h.add(W_A20())
+    h.impl("aaa", "2019-01-01"); w["order"] = ("order", h, 1)
     return w
